@@ -51,9 +51,7 @@ pub fn gen(seed: u64, tier: Tier) -> ScenarioSpec {
         spec.sink.enospc_after = Some(if rng.chance(3, 4) { (len as u64).saturating_sub(3000 + 1).saturating_add(rng.below(3000)) } else { rng.below(len as u64) });
     }
     spec.compression = *rng.pick(&[Compression::None, Compression::Lz4, Compression::Zstd]);
-    if rng.chance(1, 10) {
-        spec.knobs.insert("prelude".into(), *rng.pick(&[1i64, 2, 3]));
-    }
+    spec.knobs.insert("prelude".into(), gen_prelude(&mut rng, &[1, 2, 3, 5], 5));
     spec
 }
 
